@@ -29,9 +29,9 @@ func NewVerifMemTransportURI(local, remote *defn.URI, scope defn.Scope, mtu int)
 	t.localURI, t.remoteURI = local, remote
 	return t
 }
-func (t *VerifMemTransport) String() string                     { return "VerifMemTransport" }
-func (t *VerifMemTransport) SetPersistency(p Persistency) bool  { t.persistency = p; return true }
-func (t *VerifMemTransport) GetSendQueueSize() uint64           { return 0 }
+func (t *VerifMemTransport) String() string                    { return "VerifMemTransport" }
+func (t *VerifMemTransport) SetPersistency(p Persistency) bool { t.persistency = p; return true }
+func (t *VerifMemTransport) GetSendQueueSize() uint64          { return 0 }
 func (t *VerifMemTransport) sendFrame(frame []byte) {
 	t.Frames = append(t.Frames, append([]byte(nil), frame...))
 }
@@ -46,8 +46,10 @@ func VerifMakeLinkService(t *VerifMemTransport, opt NDNLPLinkServiceOptions) *ND
 	return MakeNDNLPLinkService(t, opt)
 }
 func VerifSendPacket(l *NDNLPLinkService, out dispatch.OutPkt) { sendPacket(l, out) }
-func VerifHandleFrame(l *NDNLPLinkService, frame []byte)        { l.handleIncomingFrame(frame) }
-func VerifReadTlvStream(r io.Reader, onFrame func([]byte)) error { return readTlvStream(r, onFrame, nil) }
+func VerifHandleFrame(l *NDNLPLinkService, frame []byte)       { l.handleIncomingFrame(frame) }
+func VerifReadTlvStream(r io.Reader, onFrame func([]byte)) error {
+	return readTlvStream(r, onFrame, nil)
+}
 
 // VerifStoreSize returns the number of partially reassembled messages and the bytes they hold.
 func VerifStoreSize(l *NDNLPLinkService) (msgs int, slots int, bytes int) {
